@@ -1,10 +1,93 @@
 import GeoVerif.Corr.Proto
 import GeoVerif.Model.Mask
-/-! Correspondence for C12: which outputs are written for each (solver, caps, outmask, arcmode) -/
+import GeoVerif.Model.LineState
+import GeoVerif.Model.Overloads
+/-! Correspondence for C12: which outputs are written for each (solver, caps, outmask, arcmode); the third point of a line
+object under arbitrary histories; `Capabilities`; the overloads exercised by the harness against the table extracted from
+the headers. -/
 namespace GeoVerif.Corr.C12
 open GeoVerif GeoVerif.Proto GeoVerif.Mask
 
 def pb (s : String) : Option Bool := if s == "1" then some true else if s == "0" then some false else none
+
+/-- solver letter: `G` series, `X` = `Geodesic(a, f, true)`, `E` = `GeodesicExact`; an optional digit selects the ellipsoid -/
+def solverOf (sv : String) : Char := sv.toList.headD 'G'
+def isRhumb (sv : String) : Bool := solverOf sv == 'R' || solverOf sv == 'S'
+/-- the enum whose constants the harness used to build `caps` / `outmask` for this solver -/
+def enumOf (sv : String) : Enum := if solverOf sv == 'E' then geodx else geod
+
+/-! ### `linehist`: the third-point machine on tokens (16 hex digits of the bit pattern, `nan`) -/
+
+open LineState in
+/-- kernels from the table the harness measured on fresh objects: `(x, arcOf x, distOf x)` -/
+def kernOf (tbl : List (String × String × String)) : Kern String :=
+  { nan := "nan"
+    arcOf := fun x => match tbl.find? (fun t => t.1 == x) with | some t => t.2.1 | none => "?"
+    distOf := fun x => match tbl.find? (fun t => t.1 == x) with | some t => t.2.2 | none => "?" }
+
+/-- one history token of the argument list -/
+def parseEv (t : String) : Option (LineState.Ev String × Option String) :=
+  if t == "rD" then some (.get .distance, none)
+  else if t == "rA" then some (.get .arc, none)
+  else if t == "r0" then some (.get (.genDistance false), none)
+  else if t == "r1" then some (.get (.genDistance true), none)
+  else if t == "cp" then some (.copy, none)
+  else
+    let tag := (t.take 2).toString; let x := (t.drop 2).toString
+    if tag == "sD" then some (.set (.setDistance x), some x)
+    else if tag == "sA" then some (.set (.setArc x), some x)
+    else if tag == "g0" then some (.set (.genSetDistance false x), some x)
+    else if tag == "g1" then some (.set (.genSetDistance true x), some x)
+    else none
+
+def splitColon (s : String) : List String := s.splitOn ":"
+
+open LineState in
+def linehist (args res : List String) : Verdict :=
+  match args with
+  | sv :: _lat :: _lon :: _azi :: ctor :: capsS :: cx :: _cy :: evs =>
+    (match capsS.toNat?, res with
+     | some caps, capF :: ctorK :: rest =>
+       let e := enumOf sv
+       match evs.mapM parseEv with
+       | none => .bad "parse history"
+       | some pevs =>
+         if rest.length != pevs.length + 1 then .bad "parse: result length" else
+         let evRes := rest.take pevs.length
+         let fin := splitColon (rest.getD pevs.length "")
+         -- kernel table: constructor argument + every setter argument
+         let ctorT : List (String × String × String) :=
+           match splitColon ctorK with
+           | ["c", a, d] => [(cx, a, d)]
+           | ["i", a12, a, d] => [(a12, a, d)]
+           | _ => []
+         let a12 := match splitColon ctorK with | ["i", a12, _, _] => a12 | _ => "nan"
+         let setT : List (String × String × String) := (pevs.zip evRes).filterMap fun (p, r) =>
+           match p.2, splitColon r with
+           | some x, ["k", a, d] => some (x, a, d)
+           | _, _ => none
+         let K := kernOf (ctorT ++ setT)
+         let st0 : Option (St String) :=
+           if ctor == "L" || ctor == "GL" then some (lineInit e K caps)
+           else if ctor.startsWith "U" then some (defaultLine K)
+           else if ctor == "D" then some (directLine e K caps cx)
+           else if ctor == "A" then some (arcDirectLine e K caps cx)
+           else if ctor == "G0" then some (genDirectLine e K caps false cx)
+           else if ctor == "G1" then some (genDirectLine e K caps true cx)
+           else if ctor == "I" then some (inverseLine e K caps a12)
+           else none
+         match st0 with
+         | none => .bad "parse: constructor"
+         | some st0 =>
+           let (stF, obs) := run e K st0 (pevs.map (·.1))
+           let implObs := (pevs.zip evRes).filterMap fun (p, r) => match p.1 with | .get _ => some r | _ => none
+           let modelFin := ["f", read K stF .distance, read K stF .arc, read K stF (.genDistance false), read K stF (.genDistance true), toString stF.caps]
+           if toString st0.caps != capF then .bad s!"line constructor {ctor} caps={caps}: Capabilities() impl={capF} model={st0.caps}"
+           else if obs != implObs then .bad s!"third point, {ctor} caps={caps}: readers returned impl={implObs} model={obs}"
+           else if modelFin != fin then .bad s!"third point, {ctor} caps={caps}: after the history impl={fin} model={modelFin}"
+           else .ok
+     | _, _ => .bad "parse")
+  | _ => .bad "parse"
 
 def handle (op : String) (args res : List String) : Option Verdict :=
   match op with
@@ -14,11 +97,34 @@ def handle (op : String) (args res : List String) : Option Verdict :=
     | [sv, caps, om, am], [wb, rn] =>
       (match caps.toNat?, om.toNat?, pb am, wb.toNat?, pb rn with
        | some caps, some outmask, some arcmode, some wbits, some retNaN =>
-         let e := if sv == "G" then geod else geodx
+         let e := if solverOf sv == 'G' then geod else geodx
          let m := encode (written e caps outmask arcmode)
          let mNaN := !locatable e caps arcmode
          if m == wbits && mNaN == retNaN then .ok
-         else .bad s!"GeodesicLine{if sv == "G" then "" else "Exact"}::GenPosition caps={caps} outmask={outmask} arcmode={arcmode}: written impl={wbits} model={m}; return NaN impl={retNaN} model={mNaN}"
+         else .bad s!"GeodesicLine{if solverOf sv == 'G' then "" else "Exact"}::GenPosition caps={caps} outmask={outmask} arcmode={arcmode}: written impl={wbits} model={m}; return NaN impl={retNaN} model={mNaN}"
+       | _, _, _, _, _ => .bad "parse")
+    | _, _ => .bad "parse"
+  | "uninitmask" => some <|
+    -- a default-constructed line (`_caps = 0`): nothing can be located
+    match args, res with
+    | [sv, om, am, _fill], [wb, rn] =>
+      (match om.toNat?, pb am, wb.toNat?, pb rn with
+       | some _outmask, some arcmode, some wbits, some retNaN =>
+         let e := enumOf sv
+         let loc := LineState.canLocate e 0 arcmode
+         if wbits == 0 && retNaN == !loc then .ok
+         else .bad s!"default-constructed line ({sv}) arcmode={arcmode}: written impl={wbits} model=0; return NaN impl={retNaN} model={!loc}"
+       | _, _, _, _ => .bad "parse")
+    | _, _ => .bad "parse"
+  | "capstest" => some <|
+    match args, res with
+    | [sv, caps, tc], [c, t, ini] =>
+      (match caps.toNat?, tc.toNat?, c.toNat?, pb t, pb ini with
+       | some caps, some tc, some c, some t, some ini =>
+         let e := enumOf sv
+         let st : LineState.St String := LineState.lineInit e (kernOf []) caps
+         if st.caps == c && LineState.capabilitiesTest e st tc == t && st.init == ini then .ok
+         else .bad s!"line ({sv}) caps={caps}: Capabilities() impl={c} model={st.caps}; Capabilities({tc}) impl={t} model={LineState.capabilitiesTest e st tc}; Init() impl={ini} model={st.init}"
        | _, _, _, _, _ => .bad "parse")
     | _, _ => .bad "parse"
   | "invmask" => some <|
@@ -26,7 +132,7 @@ def handle (op : String) (args res : List String) : Option Verdict :=
     | [sv, om], [wb] =>
       (match om.toNat?, wb.toNat? with
        | some outmask, some wbits =>
-         let m := if sv == "R" then encode (writtenRhumbInverse outmask) else encode (writtenInverse (if sv == "G" then geod else geodx) outmask)
+         let m := if isRhumb sv then encode (writtenRhumbInverse outmask) else encode (writtenInverse (if solverOf sv == 'G' then geod else geodx) outmask)
          if m == wbits then .ok else .bad s!"GenInverse({sv}) outmask={outmask}: written impl={wbits} model={m}"
        | _, _ => .bad "parse")
     | _, _ => .bad "parse"
@@ -35,14 +141,35 @@ def handle (op : String) (args res : List String) : Option Verdict :=
     | [sv, om, am], [wb] =>
       (match om.toNat?, pb am, wb.toNat? with
        | some outmask, some arcmode, some wbits =>
-         let m := if sv == "R" then encode (writtenRhumbDirect outmask)
+         let m := if isRhumb sv then encode (writtenRhumbDirect outmask)
            else
-             let e := if sv == "G" then geod else geodx
+             let e := if solverOf sv == 'G' then geod else geodx
              -- GenDirect: caps = outmask (| DISTANCE_IN unless arcmode)
              encode (written e (if arcmode then outmask else outmask ||| e.distanceIn) outmask arcmode)
          if m == wbits then .ok else .bad s!"GenDirect({sv}) outmask={outmask} arcmode={arcmode}: written impl={wbits} model={m}"
        | _, _, _ => .bad "parse")
     | _, _ => .bad "parse"
+  | "rlinemask" => some <|
+    match args, res with
+    | [sv, om, _s12], [wb] =>
+      (match om.toNat?, wb.toNat? with
+       | some outmask, some wbits =>
+         let m := encode (writtenRhumbDirect outmask)
+         if m == wbits then .ok else .bad s!"RhumbLine::GenPosition({sv}) outmask={outmask}: written impl={wbits} model={m}"
+       | _, _ => .bad "parse")
+    | _, _ => .bad "parse"
+  | "ovl" => some <|
+    -- the overloads the harness compared with the general function must be exactly those of the headers
+    match args with
+    | sv :: _ =>
+      let classes := if isRhumb sv then ["Rhumb", "RhumbLine"] else if solverOf sv == 'E' then ["GeodesicExact", "GeodesicLineExact"] else ["Geodesic", "GeodesicLine"]
+      let want := (Gen.Overloads.table.filter fun r => classes.contains r.cls).map Overloads.ovlId
+      let missing := want.filter fun i => !res.contains i
+      let extra := res.filter fun i => !want.contains i
+      if missing.isEmpty && extra.isEmpty then .ok
+      else .bad s!"overloads of {classes}: in the header but not exercised by the harness: {missing}; exercised but not in the header: {extra}"
+    | _ => .bad "parse"
+  | "linehist" => some (linehist args res)
   | "maskvalues" => some (.skip "value independence of the mask and line consistency are judged by the harness on the implementation")
   | _ => none
 
